@@ -157,12 +157,14 @@ Section WithW.
     | _, _ => cw
     end.
 
-  (* for i, cell := range row.Cells() { if i > columnCount {break}; if d.cellWidth > columnWidths[i] {columnWidths[i] = d.cellWidth} } *)
+  (* for i, cell := range row.Cells() { if i >= columnCount {break}; if d.cellWidth > columnWidths[i] {columnWidths[i] = d.cellWidth} }
+     (repaired, D21: the guard was `i > columnCount`, which let a row with more
+     cells than the table has columns index one past the end) *)
   Fixpoint row_widths (ncols i : nat) (cs : list mcell) (cw : list Z) : res (list Z) :=
     match cs with
     | [] => Ok cw
     | c :: r =>
-        if (ncols <? i)%nat then Ok cw else
+        if (ncols <=? i)%nat then Ok cw else
         bind (idx cw i) (fun cur =>
         bind (if cur <? mc_w c then upd cw i (mc_w c) else Ok cw) (fun cw' =>
         row_widths ncols (S i) r cw'))
